@@ -1,5 +1,5 @@
 From Tramp Require Import Model.Base Model.Fee Model.Classify Model.Node Model.Provider Model.ProviderSys Model.Sys.
-From Tramp Require Import Proofs.SysBasics Proofs.SysShape Proofs.SysTheorems Proofs.SysReach Proofs.SysCalls Proofs.SysNode Proofs.SysSafety Proofs.SysRecover Proofs.SysCoop Props.C09.
+From Tramp Require Import Proofs.SysBasics Proofs.SysShape Proofs.SysTheorems Proofs.SysReach Proofs.SysCalls Proofs.SysNode Proofs.SysSafety Proofs.SysRecover Proofs.SysLive Proofs.SysTerm Proofs.SysCoop Proofs.SysAccount Props.C09.
 Check C09_crash_image_is_a_start_image : forall c n t0 h0 a0 evs,
   node_ok n -> hist_wf false c (sys_start n t0 h0 a0) evs ->
   node_ok (nd (fst (step c (after c n t0 h0 a0 evs) EvCrash))).
@@ -36,6 +36,15 @@ Check C09_cooperative_runs_never_fail : forall c B Dl n t0 h0 a0 evs,
   (forall a t g, ds n = Some (DPending a t, g) -> a < a0 /\ t0 - t < mpp_ms c) ->
   hist_wf true c (sys_start n t0 h0 a0) evs -> Forall (ev_coop c B Dl) evs ->
   forall o h m, In o (snd (run c (sys_start n t0 h0 a0) evs)) -> ~ In (OResp h (Fail m)) o.
+Check C09_cooperative_run_at_rest_has_settled_everything : forall c B Dl n t0 h0 a0 pre h post,
+  mpp_ms c <> 0 -> node_ok n ->
+  (forall a, mem_att a (atts n) = true -> a < a0) ->
+  (forall a t g, ds n = Some (DPending a t, g) -> a < a0 /\ t0 - t < mpp_ms c) ->
+  let evs := pre ++ EvHtlc h :: post in
+  hist_wf true c (sys_start n t0 h0 a0) evs -> Forall (ev_coop c B Dl) evs -> ~ In EvCrash post ->
+  let s := after c n t0 h0 a0 evs in
+  (forall ev, progress_ev s ev = true -> ev_wf true s ev -> ~ seffective c s ev) ->
+  exists o pr, In o (snd (run c (sys_start n t0 h0 a0) evs)) /\ In (OResp (hid h) (Resolve pr)) o.
 Check C09_cooperative_step : forall c B Dl s ev,
   mpp_ms c <> 0 -> wreach true c s -> K c B Dl s -> ev_coop c B Dl ev ->
   K c B Dl (fst (step c s ev)) /\ forall h m, ~ In (OResp h (Fail m)) (snd (step c s ev)).
@@ -64,3 +73,5 @@ Print Assumptions C09_never_wedged_whatever_the_pending_parts_do.
 Print Assumptions C09_cooperative_runs_never_fail.
 Print Assumptions C09_cooperative_step.
 Print Assumptions C09_cooperative_nonvacuous.
+Print Assumptions C09_cooperative_run_at_rest_has_settled_everything.
+Print Assumptions C09_cooperative_at_rest_nonvacuous.
